@@ -6,6 +6,7 @@ import (
 	"crypto/x509"
 	"crypto/x509/pkix"
 	"encoding/asn1"
+	"errors"
 	"fmt"
 	"math/big"
 	"sync/atomic"
@@ -376,4 +377,57 @@ func SimpleChain(leafKind string, leafIdx, n int, tag string) *Chain {
 		specs = append(specs, CASpec(K("p256", leafIdx+i), name))
 	}
 	return MustBuild(specs...)
+}
+
+// RelabelSignature rewrites both signatureAlgorithm fields of a certificate to
+// a legacy algorithm (sha1WithRSAEncryption for RSA issuers, ecdsa-with-SHA1
+// otherwise) and leaves the signature bits alone: the result names an
+// algorithm crypto/x509 refuses to verify and carries a signature that would
+// not verify under it anyway.
+func RelabelSignature(c *x509.Certificate) (*x509.Certificate, error) {
+	var alg []byte
+	switch c.SignatureAlgorithm {
+	case x509.SHA256WithRSA, x509.SHA384WithRSA, x509.SHA512WithRSA, x509.SHA256WithRSAPSS, x509.SHA384WithRSAPSS, x509.SHA512WithRSAPSS:
+		alg = []byte{0x30, 0x0d, 0x06, 0x09, 0x2a, 0x86, 0x48, 0x86, 0xf7, 0x0d, 0x01, 0x01, 0x05, 0x05, 0x00}
+	default:
+		alg = []byte{0x30, 0x09, 0x06, 0x07, 0x2a, 0x86, 0x48, 0xce, 0x3d, 0x04, 0x01}
+	}
+	in := cryptobyte.String(c.Raw)
+	var outer, tbs, oldAlg cryptobyte.String
+	var sig cryptobyte.String
+	if !in.ReadASN1(&outer, cbasn1.SEQUENCE) || !outer.ReadASN1(&tbs, cbasn1.SEQUENCE) || !outer.ReadASN1Element(&oldAlg, cbasn1.SEQUENCE) || !outer.ReadASN1Element(&sig, cbasn1.BIT_STRING) {
+		return nil, errors.New("pki: relabel: not a certificate")
+	}
+	var parts [][]byte
+	for !tbs.Empty() {
+		var el cryptobyte.String
+		var tag cbasn1.Tag
+		if !tbs.ReadAnyASN1Element(&el, &tag) {
+			return nil, errors.New("pki: relabel: bad TBS")
+		}
+		parts = append(parts, el)
+	}
+	idx := 1 // serial, then the algorithm
+	if len(parts) > 0 && parts[0][0] == 0xa0 {
+		idx = 2
+	}
+	if idx >= len(parts) {
+		return nil, errors.New("pki: relabel: short TBS")
+	}
+	parts[idx] = alg
+	var b cryptobyte.Builder
+	b.AddASN1(cbasn1.SEQUENCE, func(b *cryptobyte.Builder) {
+		b.AddASN1(cbasn1.SEQUENCE, func(b *cryptobyte.Builder) {
+			for _, p := range parts {
+				b.AddBytes(p)
+			}
+		})
+		b.AddBytes(alg)
+		b.AddBytes(sig)
+	})
+	der, err := b.Bytes()
+	if err != nil {
+		return nil, err
+	}
+	return x509.ParseCertificate(der)
 }
